@@ -48,6 +48,12 @@ CHECKS = {
   text="For attribute values of <= 2 (quick) / 3 (thorough) pieces - text of 1-2 symbolic characters over all of Unicode, a character reference to ANY character, an entity reference - with entity tables of <= 2 entities (text, character references to tab / line feed / 'A', nested reference) and the declared types undeclared / CDATA / tokenized, z3 decides on every path that the normalized value equals the section 3.3.3 result (literal white space -> #x20, referenced characters unchanged, entity text normalized recursively, trim + collapse of #x20 only for non-CDATA types). A cyclic entity table must be refused, not recursed into.",
   note="Partial: locating the ATTLIST declaration for an attribute, materialising defaulted attributes and the specified flag walk the item graph and are outside; ATTLIST parsing is covered by C01's dtd-attlist template; input line-end normalisation is not considered. Pieces, Context::entity and declaration_type are stubs (listed in the evidence).",
   design="4/C11", engine="S-kernel"),
+ "C14": dict(
+  technique="source-level symbolic execution (S-kernel) of info::DocumentOrder and the HasContext order methods with symbolic ids, anchor, version and caches + SMT (z3 BV64); one inductive step from an arbitrary valid vector; counterexamples replayed on the compiled DocumentOrder through the `verif` hook",
+  category="model_checking",
+  text="From ANY valid order vector of k <= 2 (quick) / 3 (thorough) attached items with symbolic pairwise-distinct non-zero ids, one detached item, any version and any caches allowed by the cache invariant, one call of set_order_after / set_order_before (symbolic anchor id, any item as mover), clear_order or init_order is executed symbolically through DocumentOrder::{get, insert_after, insert_before, push, remove} and order(). z3 decides on every path that the keys reported afterwards are exactly 1..n in the specified sequence (non-zero, pairwise distinct, strictly increasing along it), that a failing call changes no key, and that the cache invariant holds again - so histories of any length are covered for the vector kernel within k.",
+  note="Partial: which anchor the tree mutators pick (append / insert_before / attributes / subtree moves), hence the pre-order relation over the tree and query(edited) = query(re-parsed), need the item graph and are outside. Weak::upgrade is assumed to succeed.",
+  design="4/C14", engine="S-kernel"),
  "C15": dict(
   technique="source-level symbolic execution (S-kernel) of the DOM character-data mutators and name factories, with the validate-by-reparse checks executed through the S-grammar encoding of the real nom productions + SMT (z3); one inductive step from an arbitrary state of the capture-language invariant; counterexamples replayed through the DOM API with print + re-parse",
   category="model_checking",
@@ -75,11 +81,11 @@ DEFAULT_NA = "check not built yet (construction in progress)"
 m = {
  "version": 1,
  "setup_cmd": "./setup.sh",
- "hooks": {"guard": "cargo feature `verif` of xml-info (no hook commit exists yet)", "enable": "path dependency with features=[\"verif\"]",
-           "baseline_off_cmd": "cd /repo && cargo test --workspace --no-fail-fast --offline", "source_commits": [], "add_only": True},
+ "hooks": {"guard": "cargo feature `verif` of xml-info", "enable": "path dependency xml-info = { path = \"/repo/info\", features = [\"verif\"] } in /verif/replay/Cargo.toml",
+           "baseline_off_cmd": "cd /repo && cargo test --workspace --no-fail-fast --offline", "source_commits": ["1af260d"], "add_only": True},
  "engines": [
   {"name": "S-grammar", "path": "engine/sx/nomsem.py", "serves_properties": ["C01", "C02", "C03", "C06", "C08", "C18"], "kind_free_text": "symbolic executor for the nom grammars read from /repo via engine/srcdump (syn); z3 QF_BV"},
-  {"name": "S-kernel", "path": "engine/sx/kernel.py", "serves_properties": ["C09", "C11", "C15", "C16"], "kind_free_text": "path-enumerating symbolic interpreter for small Rust functions read from the syn dump (engine/sx/kstd.py = std models); z3"},
+  {"name": "S-kernel", "path": "engine/sx/kernel.py", "serves_properties": ["C09", "C11", "C14", "C15", "C16"], "kind_free_text": "path-enumerating symbolic interpreter for small Rust functions read from the syn dump (engine/sx/kstd.py = std models); z3"},
   {"name": "Kani", "path": "kani/", "serves_properties": ["C18"], "kind_free_text": "Kani 0.68 / CBMC 6.11 harness crate with path dependencies on /repo crates"},
   {"name": "replay", "path": "replay/", "serves_properties": ["C01", "C02"], "kind_free_text": "Rust driver with path dependencies on /repo crates: replays solver models and validates the translator"},
  ],
